@@ -167,7 +167,7 @@ def rule_hms(ctx, facts):
                 good += 1
     if shapes != {1, 2, 3} or total == 0:
         ctx.finding('C18:HMS|shapes', 'C18-P1 hh[:mm[:ss]]', span, f'parse_hms: expected results with one, two and three numbers, seen {sorted(shapes)}')
-    ctx.rule("C18-P1 parse_hms: direction from the sign, hour[:minute[:second]] in reading order, absent fields 0", max(total, 1), good, floor=6)
+    ctx.rule("C18-P1 parse_hms: direction from the sign, hour[:minute[:second]] in reading order, absent fields 0", max(total, 1), good, floor=3)
 
 
 def rule_offsets(ctx, facts):
@@ -309,7 +309,7 @@ def rule_ruleday(ctx, facts):
     need = {('variant', 0), ('variant', 1), ('variant', 2), ('time', 'given'), ('time', 'default')}
     if not need <= seen:
         ctx.finding('C18:RULEDAY|forms', 'C18-P3 rule days', span, f'parse_tz_string_rule: expected all three day forms with and without a time, seen {sorted(map(str, seen))}')
-    ctx.rule('C18-P3 parse_tz_string_rule: day form by first byte, fields in reading order with exactly the POSIX ranges, default time 02:00:00', max(total, 1), good, floor=20)
+    ctx.rule('C18-P3 parse_tz_string_rule: day form by first byte, fields in reading order with exactly the POSIX ranges, default time 02:00:00', max(total, 1), good, floor=5)
 
 
 LTT = 'local::timezone::LocalTimeType'
